@@ -443,7 +443,8 @@ class SerializationMethodVisitor(
         elif (
             is_dataclass(cls)
             and self.pass_through_options.dataclasses
-            and all(f2.field for f, f2 in zip(base_fields, fields_to_order))
+            # fields in declaration order, which is the order of a passed through dataclass
+            and all(f is f2.field for f, f2 in zip(base_fields, fields_to_order))
             and not self._has_skipped_field
         ):
             method = IDENTITY_METHOD
